@@ -1,7 +1,7 @@
 (* IpamRun.v — case decoders for the cluster IPAM harness (harness/ipam), the model evaluated on them,
    and the clauses of C02 / C03 / C08 judged on what the implementation did.  Definitions only. *)
 From Coq Require Import ZArith List Bool.
-From TV Require Import Codec IpamModel.
+From TV Require Import Codec IpamModel IpamLoop.
 Import ListNotations.
 Local Open Scope Z_scope.
 
@@ -494,6 +494,84 @@ Fixpoint hist_why (prop : Z) (hc : hcfg) (prev : option (pass * cr)) (pre : cr) 
                if negb (w =? 0) then w * 100000 + idx else hist_why prop hc (Some (ps, pre)) (ps_cr ps) r (idx + 1)
   end.
 
+(* ---- kind 5: the pool maintenance loop on a node without pods (IpamLoop) ------------------------------------------- *)
+(* input: dual per min max fs nENI (n4 n6).. npass, then what was observed;
+   per round: 55 ncalls (kind eni n).. nENI (id n4 d4 n6 d6 gone).. *)
+Fixpoint dec_lens (n : nat) (id : Z) (l : list Z) : list lce * list Z :=
+  match n, l with
+  | S n', a :: b :: r => let '(es, r') := dec_lens n' (id + 1) r in (mkLe id a 0 b 0 false :: es, r')
+  | _, _ => ([], l)
+  end.
+Definition dec_loop (l : list Z) : option (lcfg * lstate * Z * list Z) :=
+  match l with
+  | du :: per :: mn :: mx :: fs :: ne :: r =>
+      let '(es, r1) := dec_lens (Z.to_nat ne) 1 r in
+      match r1 with
+      | np :: r2 => Some (mkLc (dec_bool du) per mn mx fs, (ne + 1, es), np, r2)
+      | [] => None end
+  | _ => None
+  end.
+Fixpoint dec_calls3 (n : nat) (l : list Z) : list call * list Z :=
+  match n, l with
+  | S n', k :: e :: c :: r => let '(cs, r') := dec_calls3 n' r in ((k, e, c) :: cs, r')
+  | _, _ => ([], l)
+  end.
+Fixpoint dec_ces (n : nat) (l : list Z) : list lce * list Z :=
+  match n, l with
+  | S n', id :: a :: b :: c :: d :: g :: r => let '(es, r') := dec_ces n' r in (mkLe id a b c d (dec_bool g) :: es, r')
+  | _, _ => ([], l)
+  end.
+Definition dec_round (l : list Z) : option (list call * list lce * list Z) :=
+  match l with
+  | m :: nc :: r =>
+      if negb (m =? 55) then None else
+      let '(cs, r1) := dec_calls3 (Z.to_nat nc) r in
+      match r1 with
+      | ne :: r2 => let '(es, r3) := dec_ces (Z.to_nat ne) r2 in Some (cs, es, r3)
+      | [] => None end
+  | _ => None
+  end.
+Definition call_eqb (a b : call) : bool := match a, b with (a1, a2, a3), (b1, b2, b3) => (a1 =? b1) && (a2 =? b2) && (a3 =? b3) end.
+Definition ce_eqb (a b : lce) : bool :=
+  (c_id a =? c_id b) && (c_n4 a =? c_n4 b) && (c_d4 a =? c_d4 b) && (c_n6 a =? c_n6 b) && (c_d6 a =? c_d6 b) && Bool.eqb (c_gone a) (c_gone b).
+Definition same_multiset {A} (eqb : A -> A -> bool) (a b : list A) : bool :=
+  (Z.of_nat (length a) =? Z.of_nat (length b)) && forallb (fun x => existsb (eqb x) b) a && forallb (fun x => existsb (eqb x) a) b.
+(* the model runs beside the observed rounds; where the sort order of the interfaces is decided by Go's map order (equal
+   address counts) the model adopts what was observed and goes on from there *)
+Fixpoint loop_follow (fuel : nat) (c : lcfg) (st : lstate) (obs : list Z) (idx : Z) : Z :=
+  match fuel with
+  | O => 0
+  | S f =>
+      match dec_round obs with
+      | None => 0
+      | Some (ocs, oes, rest) =>
+          if tie_somewhere c st then loop_follow f c (fst st + Z.of_nat (length (filter (fun x => match x with (k, _, _) => k =? 1 end) ocs)), oes) rest (idx + 1)
+          else
+            let '(st', cs) := IpamLoop.pass c st in
+            if same_multiset call_eqb cs ocs && same_multiset ce_eqb (snd st') oes then loop_follow f c st' rest (idx + 1)
+            else 1 + idx
+      end
+  end.
+Definition run_loop (l : list Z) : list Z :=
+  match dec_loop l with
+  | Some (c, st, np, r) =>
+      match observed r with
+      | Some o => let w := loop_follow (Z.to_nat np + 1) c st o 0 in if w =? 0 then o else [-997; 5; w]
+      | None => bad end
+  | None => bad
+  end.
+(* C08 on the loop: with min <= max and a healthy cloud the last two rounds are quiet *)
+Fixpoint rounds_calls (fuel : nat) (obs : list Z) : list Z :=
+  match fuel with
+  | O => []
+  | S f => match dec_round obs with Some (cs, _, rest) => Z.of_nat (length cs) :: rounds_calls f rest | None => [] end
+  end.
+Definition loop_why (l o : list Z) : Z :=
+  let ns := rounds_calls 64 o in
+  match rev ns with
+  | a :: b :: _ => if (a =? 0) && (b =? 0) then 0 else 809
+  | _ => 0 end.
+
 (* ---- dispatch ---------------------------------------------------------------------------------------------- *)
 Definition run_ipam (l : list Z) : list Z :=
   match l with
@@ -504,6 +582,7 @@ Definition run_ipam (l : list Z) : list Z :=
       else if k =? 4 then match dec_hist r with
                           | Some (_, r1) => match observed r1 with Some o => o | None => bad end
                           | None => bad end
+      else if k =? 5 then run_loop r
       else bad
   | [] => bad
   end.
@@ -520,6 +599,7 @@ Definition why_ipam (prop : Z) (l o : list Z) : Z :=
       else if k =? 4 then match dec_hist r with
                           | Some (hc, _) => hist_why prop hc None [] (dec_passes 400 (h_on4 hc) (h_on6 hc) o) 0
                           | None => 49900000 end
+      else if k =? 5 then (if prop =? 8 then loop_why r o * 100000 else 0)
       else 99900000
   | [] => 99900000
   end.
